@@ -47,6 +47,8 @@ Line-protocol front end of the C01 model.
 * `zoomn fwd|bwd [n…] [m…] [nfft…] [nfftInv…] [x0…] [δ…] [u0…] [Δ…] [w…] [j…]` (shape order) —
   `zoomForwardN` / `zoomBackwardN` (`Model/ZoomN.lean`: weights, then the CZT axis loop) on the unit
   impulse; `zoomsum …` the n-D defining sums.
+* `zoomchirp fwd|bwd x0 δ u0 Δ` — the chirp parameters `w a` of one axis (`zoomChirp`/`zoomChirpInv`,
+  what `zoomAxis`/`zoomAxisInv` hand to the Bluestein pipeline), as monomials.
 * `zoomaxes r ndim` — `zoomLoop` (`Model/Axes.lean`): the axis the CZT acts on at each iteration and
   the final layout, labels `t<i>` (tensor axis) / `g<d>` (grid axis with dims-index `d`).
 * `fftparams N δ Mo dT zeroT s` — `get_fft_parameters` on one axis (output spacing `2π·dT`, output
@@ -315,6 +317,18 @@ def step (st : St) : List String → St × String
     | _, _, _, _ => (st, "bad-op")
   | "zoomn" :: args => (st, zoomOp false args)
   | "zoomsum" :: args => (st, zoomOp true args)
+  | ["zoomchirp", dir, x0, d, u0, D] =>
+    match parseRat? x0, parseRat? d, parseRat? u0, parseRat? D with
+    | some x0, some d, some u0, some D =>
+      if dir == "fwd" then
+        let p := zoomChirp d u0 D
+        (st, s!"ok {showPSumFull (PSum.rad p.1)} {showPSumFull (PSum.rad p.2)}")
+      else if dir == "bwd" then
+        let p := zoomChirpInv x0 d D
+        let E' : Rat → PSum := fun r => PSum.rad (-r)
+        (st, s!"ok {showPSumFull (E' p.1)} {showPSumFull (E' p.2)}")
+      else (st, "bad-op")
+    | _, _, _, _ => (st, "bad-op")
   | ["zoomaxes", r, ndim] =>
     match parseNat? r, parseNat? ndim with
     | some r, some ndim =>
